@@ -35,6 +35,8 @@ def tobool(v):
             return v != 0
     if isinstance(v, (SSet, SDict, SSeq)):
         return v.truth()
+    if hasattr(v, "length") and is_term(getattr(v, "length", None)) and hasattr(v, "arr"):
+        return v.length > 0            # string view: non-empty
     if isinstance(v, Choice):
         return OR(*[AND(c, tobool(x)) for c, x in v.alts])
     if v is None:
